@@ -42,7 +42,7 @@ class ScaleSim(Sim):
               "gc_during_build", "chain_with_view_ops", "same_operand_twice_in_chain", "chain_two_sweeps", "chain_retain_ctx", "chain_retain_every",
               "untracked_body_mul_param_add_param", "untracked_body_functional", "untracked_body_linear", "untracked_body_views", "untracked_body_unbind", "untracked_body_new_scalar_each_step", "detached_loop_bptt", "detached_loop_log", "fault_mid_deep_sweep_then_retry",
               "unrelated_sweeps_between_deep_sweeps", "untracked_loop_inside_retain_grads", "nested_no_grad_left_by_exception_in_loop",
-              "same_no_grad_object_reentered_in_loop", "tracked_value_folded_into_untracked_loop"]
+              "same_no_grad_object_reentered_in_loop", "tracked_value_folded_into_untracked_loop", "untracked_loop_named_tensors"]
     RULE = ("one run = 1-3 large scenarios (deep chain / wide fan-out / diamond ladder / untracked loop / work-scaling pair) with seeded sizes, op "
             "patterns, recursion-limit knob and gc schedule; distinct = scenario family x size bucket x recursion limit; non-trivial = every run")
     ASSUMPTIONS = ["cost is judged on deterministic work counters (line events in tensor.py, Tensor.__eq__/__hash__ calls), not on time: "
@@ -80,7 +80,8 @@ class ScaleSim(Sim):
                     "body": rng.choice(["scale_add", "mul_param_add_param", "functional", "linear", "views", "unbind", "new_scalar_each_step"]),
                     "tracked_every": rng.choice([0, 0, 2500]), "limit": kn["limit"],
                     "retain_ctx": rng.random() < 0.3, "nested_exc_every": rng.choice([0, 0, 3000]),
-                    "fold_tracked_every": rng.choice([0, 0, 7, 500]), "reenter_same_every": rng.choice([0, 0, 1500])}
+                    "fold_tracked_every": rng.choice([0, 0, 7, 500]), "reenter_same_every": rng.choice([0, 0, 1500]),
+                    "named": rng.random() < 0.4}
         return {"k": "work", "n": rng.choice([400, 800]), "shape": rng.choice(["chain", "ladder", "fanin", "fanout"])}
 
     def _preflight(self, st):
@@ -294,6 +295,21 @@ class ScaleSim(Sim):
         x = SG.Tensor(np.array([1.0, 2.0]))
         wtr = SG.Tensor(np.array([0.25, -0.5]), requires_grad=True)      # (created before the block: a parameter of the tracked side computation)
         sg = SG.sg
+        if ev.get("named"):
+            # the user labels parameters and the running value (names show up in repr and in drawn graphs)
+            for t, nm in ((w, "w"), (b, "b"), (W, "W"), (x, "state"), (wtr, "wtr")):
+                t.name = nm
+            st.probes["untracked_loop_named_tensors"] += 1
+
+        def footprint(t):
+            """bytes held by the attribute values of one tensor object (shallow; its array has a constant shape in these loops)"""
+            tot = 0
+            for v in list(getattr(t, "__dict__", {}).values()):
+                tot += sys.getsizeof(v)
+                if isinstance(v, (tuple, list)):
+                    tot += sum(sys.getsizeof(u) for u in v if not isinstance(u, SG.Tensor))
+            return tot
+        foot0 = None
 
         counter = [1]
 
@@ -365,6 +381,11 @@ class ScaleSim(Sim):
                         st.fail("C17.untracked_keeps_history", f"step {i}: a result computed while gradients are not tracked requires grad")
                     if i % 1000 == 0:
                         refs.append((i, weakref.ref(x)))
+                    if i == 50:
+                        foot0 = footprint(x)
+                    elif i % 500 == 60 and foot0 is not None and footprint(x) > foot0 + 2048:
+                        st.fail("C17.untracked_keeps_history", f"the loop-carried result of untracked step {i} holds {footprint(x)} bytes in its attributes, the one of "
+                                f"step 50 held {foot0}: an untracked result carries something that grows with the history ({mode}, body {body})", step=i)
                     if i % 1000 == 7 and len(refs) >= 2:
                         gc.collect()
                         j, r = refs[-2]
